@@ -1,0 +1,26 @@
+//go:build verif
+
+package symbol
+
+import (
+	"github.com/gofrs/uuid"
+	"github.com/siyul-park/uniflow/pkg/spec"
+)
+
+// VerifReferences returns a deep copy of the table's reverse-reference index
+// (target symbol -> in-port -> referring out-ports). Read-only accessor for the
+// verification harness.
+func (t *Table) VerifReferences() map[uuid.UUID]map[string][]spec.Port {
+	t.mu.RLock()
+	defer t.mu.RUnlock()
+
+	out := make(map[uuid.UUID]map[string][]spec.Port, len(t.references))
+	for id, ports := range t.references {
+		m := make(map[string][]spec.Port, len(ports))
+		for name, refs := range ports {
+			m[name] = append([]spec.Port(nil), refs...)
+		}
+		out[id] = m
+	}
+	return out
+}
